@@ -46,6 +46,18 @@ namespace occa {
           && hasValidUpdate()
         );
 
+        // A constant step has to be positive: [+= 0] never ends (and divides by zero below),
+        // [+= -c] moves the iterator the other way and gives a meaningless iteration count
+        if (valid && updateValue && updateValue->canEvaluate()) {
+          const int step = updateValue->evaluate();
+          if (!(0 < step)) {
+            valid = false;
+            if (printErrors_) {
+              updateOp->printError(sourceStr() + "The step of an OKL for loop must be positive");
+            }
+          }
+        }
+
         if(valid) {
           exprNode* loop_range_node = getIterationCount();
           if (loop_range_node->canEvaluate()) {
